@@ -205,6 +205,8 @@ def lod_via(items, via):
     a = di.ListOfDicts([dict(x) for x in items])
     if not via:
         return a
+    if via not in VIAS:
+        raise ValueError(via)
     try:
         if via == "deepcopy":
             out = a.deepcopy()
@@ -216,12 +218,8 @@ def lod_via(items, via):
             out = di.ListOfDicts.from_json(a.to_json())
         elif via == "modify":
             out = a.modify(id=lambda x: x["id"]) if all("id" in x for x in items) else a.deepcopy()
-        elif via == "slice":
-            out = a[:]
         else:
-            raise ValueError(via)
-    except ValueError:
-        raise
+            out = a[:]
     except Exception:
         return a
     if not isinstance(out, di.ListOfDicts) or [repr(sorted(x.items(), key=repr)) for x in out] != [repr(sorted(dict(x).items(), key=repr)) for x in items]:
